@@ -255,6 +255,18 @@ def check_case(case) -> Result:
     for kind in sorted(set(fa) & set(fb)):
         reach = events_ne_descriptors if kind == "num_events_mismatch" else shared_counter_visible
         res.fail(kind, f"by descriptor name: {fa[kind]}; by stream_name: {fb[kind]}", counter_defect_reachable=reach, **feats)
+    # "... reports, for each stream, the number of events emitted in it": a stream in which this run emitted nothing
+    # (under either reading of "stream") must not be reported with a count
+    ne = stop.get("num_events")
+    if isinstance(ne, dict):
+        ghosts = {k: v for k, v in ne.items() if v and k not in by_name and k not in by_arg}
+        if ghosts:
+            res.fail(
+                "num_events_for_stream_without_events",
+                f"num_events={ne!r} but this run re-emitted events only in {sorted(map(str, set(by_name) | set(by_arg)))}",
+                counter_defect_reachable=False,
+                **feats,
+            )
     res.obs = {"num_events": stop.get("num_events"), "by_name": by_name, "by_stream_name": by_arg}
     return res
 
